@@ -147,6 +147,17 @@ section
 variable {α : Type} (I : Interp α)
 
 mutual
+/-- `DeepNode::contains_var` -/
+def nodeContainsVar (name : Str) : DeepNode α → Bool
+  | .num _ => false
+  | .var _ v => v == name
+  | .expr (.mk nodes _ _ _) => nodesContainVar name nodes
+def nodesContainVar (name : Str) : List (DeepNode α) → Bool
+  | [] => false
+  | n :: ns => nodeContainsVar name n || nodesContainVar name ns
+end
+
+mutual
 /-- `DeepEx::subs` with the substitution given as a finite map from names to expressions -/
 def DeepEx.subs (σ : Str → Option (DeepEx α)) : DeepEx α → Res (DeepEx α)
   | .mk nodes ops un vars =>
@@ -155,9 +166,9 @@ def DeepEx.subs (σ : Str → Option (DeepEx α)) : DeepEx α → Res (DeepEx α
     | .ok (ns, names) =>
       -- variables that do not occur in any node are kept unless they are substituted
       let names := vars.foldl (fun acc v =>
-        if acc.contains v then acc else
+        if nodesContainVar v nodes then acc else
         match σ v with
-        | none => acc ++ [v]
+        | none => pushNew acc v
         | some r => r.vars.foldl pushNew acc) names
       let all := sortBy strLe names
       match (DeepEx.mk ns ops un []).resetVars all with
